@@ -600,6 +600,31 @@ func Execute(s *Scenario, dir string) (res *Result) {
 		if !x.quiesce("final announcement round") {
 			return
 		}
+		// Bounded progress with slack: hand-offs between the service's goroutines (a closed connection's done
+		// message, a re-dial) are not visible to the barrier and can lag under load. Before concluding
+		// "not converged", give the service a few more rounds: pause, quiesce, and let the honest peer announce
+		// one more block. A genuine failure to converge persists through every round.
+		for attempt := 0; attempt < 6 && !x.converged(); attempt++ {
+			x.count("extra_convergence_rounds", 1)
+			time.Sleep(time.Duration(150*(attempt+1)) * time.Millisecond)
+			if !x.quiesce("extra convergence round") {
+				return
+			}
+			if x.converged() {
+				break
+			}
+			if len(x.nodes[0].Live()) == 0 && !x.waitFor(func() bool { return len(x.nodes[0].Live()) > 0 }, 30*time.Second) {
+				break
+			}
+			x.w.ExtendHonest(1, genesis)
+			x.nodes[0].SetChain(x.w.Honest)
+			for _, c := range x.nodes[0].Live() {
+				_ = c.Announce()
+			}
+			if !x.quiesce("extra convergence round") {
+				return
+			}
+		}
 		x.checkConverged()
 	}
 	x.scenarioSpecificChecks("end")
@@ -639,6 +664,12 @@ func (x *runner) quiesce(stage string) bool {
 	}
 	x.count("barriers", 1)
 	return true
+}
+
+// converged: cheap test used by the slack rounds (tip = honest tip).
+func (x *runner) converged() bool {
+	tip := x.st.Svc.Headers.GetTip()
+	return tip != nil && tip.Hash.String() == x.w.Honest[len(x.w.Honest)-1].HashOf().String()
 }
 
 // checkConverged: the store holds every header of the honest chain and the tip is the honest tip.
